@@ -220,6 +220,7 @@ type Item struct {
 	Variadic bool     `json:"variadic,omitempty"`
 	// raw result list override for signature tests (C09)
 	RawResults []string `json:"raw_results,omitempty"`
+	Stub       bool     `json:"stub,omitempty"` // body panics; never executed
 	// Body override: how the provider makes its output ("" = default mk)
 	ParentFill bool `json:"parent_fill,omitempty"` // Out is a struct with carrier fields to fill with fresh ids
 
